@@ -575,8 +575,8 @@ theorem foldlM_genesisValidator_dup_le : ∀ (vals : List GenesisValidator) (L L
 
 /-- an accepted genesis has duplicate-free committee lists (the loader rejects the others since 0262f16) -/
 theorem genesis_dup_zero {cfg : Config} {params : Params} {accounts : List (Addr × Nat)} {pools : List (Nat × Nat)}
-    {vals : List GenesisValidator} {retired : List Nat} {L : Ledger}
-    (h : genesis cfg params accounts pools vals retired = .ok L) : dupCommittees L = 0 := by
+    {vals : List GenesisValidator} {retired : List Nat} {books : List GenesisBook} {L : Ledger}
+    (h : genesis cfg params accounts pools vals retired books = .ok L) : dupCommittees L = 0 := by
   unfold genesis at h
   split at h
   · exact absurd h (by intro h; cases h)
@@ -599,12 +599,17 @@ theorem genesis_dup_zero {cfg : Config} {params : Params} {accounts : List (Addr
               split at h
               · exact absurd h (by intro h; cases h)
               · next L3 h3 =>
+                split at h
+                · exact absurd h (by intro h; cases h)
+                next L4 h4 =>
                 obtain rfl := Except.ok.inj h
+                have e4 := (foldlM_genesisBook_rest books L3 L4 h4).validators
                 have e1 := foldlM_genesisAccount_validators _ _ _ h1
                 have e2 := foldlM_genesisPool_validators _ _ _ h2
                 have k := foldlM_genesisValidator_dup_le vals L2 L3 (fun g hg => hasDup_false_nodup _ (hdc g hg)) h3
                 have z : dupCommittees L2 = 0 := by unfold dupCommittees; rw [e2, e1]; rfl
-                show dupCommittees L3 = 0
+                show dupCommittees L4 = 0
+                rw [dup_same e4]
                 omega
 
 end Canopy.Ledger
